@@ -26,12 +26,13 @@ end
 /-- tokens: `(`, `)`, and maximal runs of other non-space characters. -/
 def tokenize (s : String) : List String :=
   let rec go (cs : List Char) (cur : List Char) (acc : List String) : List String :=
-    let flush := if cur.isEmpty then acc else String.ofList cur.reverse :: acc
+    -- a thunk: compiled code evaluates a plain `let` eagerly, i.e. once per character (quadratic)
+    let flush := fun (_ : Unit) => if cur.isEmpty then acc else String.ofList cur.reverse :: acc
     match cs with
-    | [] => flush.reverse
+    | [] => (flush ()).reverse
     | c :: rest =>
-      if c = '(' ∨ c = ')' then go rest [] (String.singleton c :: flush)
-      else if c = ' ' ∨ c = '\n' ∨ c = '\r' ∨ c = '\t' then go rest [] flush
+      if c = '(' ∨ c = ')' then go rest [] (String.singleton c :: flush ())
+      else if c = ' ' ∨ c = '\n' ∨ c = '\r' ∨ c = '\t' then go rest [] (flush ())
       else go rest (c :: cur) acc
   go s.toList [] []
 
